@@ -1,13 +1,16 @@
 /-
   Kernel-checked ties (C18): unixutil.TimevalFromNsec, csptp.DurationFromTimeInterval and the
-  four CSPTP delay/offset formulas (C2SDelay, S2CDelay, MeanPathDelay, ClockOffset) as
+  four CSPTP delay/offset formulas (C2SDelay, S2CDelay, MeanPathDelay, ClockOffset) and the float
+  conversions (timemath.Duration, ScaledPPMFromFreq, FreqFromScaledPPM, SystemClock.Drift) as
   regenerated from /repo's Go source (Gen/Leaf.lean) are the hand-written models, for all inputs.
 -/
 import ScionTime.Gen.Leaf
 import ScionTime.Model.Unixutil
 import ScionTime.Model.CsptpConv
+import ScionTime.Model.FreqDrift
+import ScionTime.Proofs.GoPrelude
 namespace ScionTime.LeafTieC18
-open ScionTime ScionTime.Gen.Leaf
+open ScionTime ScionTime.Gen.Leaf ScionTime.GoLemmas
 
 theorem C18_leaf_DurationFromTimeInterval (i : Int64) :
     csptp_DurationFromTimeInterval i = CsptpConv.durationFromTimeInterval i := rfl
@@ -39,5 +42,36 @@ theorem C18_leaf_MeanPathDelay (t0 t1 t2 t3 : Int) (c1 c3 : Int64) :
 theorem C18_leaf_ClockOffset (t0 t1 t2 t3 : Int) (c1 c3 : Int64) :
     csptp_ClockOffset t0 t1 t2 t3 c1 c3 = CsptpConv.clockOffset t0 t1 t2 t3 c1 c3 := by
   unfold csptp_ClockOffset CsptpConv.clockOffset; rw [timeSub_eq, timeSub_eq]
+
+/-! ### The float conversions (fourth generation of the leaf translator: float64 over the exact
+software double Model/F64.lean): `timemath.Duration`, `unixutil.ScaledPPMFromFreq` /
+`FreqFromScaledPPM` and `(*SystemClock).Drift` as regenerated from the Go source are the models
+of Model/FreqDrift.lean, for every double (NaN, infinities, every int64). -/
+
+theorem C18_leaf_Duration (s : F64.F64) : (timemath_Duration s).toInt = FreqDrift.duration s := by
+  unfold timemath_Duration FreqDrift.duration F64.toDuration
+  exact ofInt_toInt64 _
+
+theorem C18_leaf_ScaledPPMFromFreq (f : F64.F64) :
+    (unixutil_ScaledPPMFromFreq f).toInt = FreqDrift.scaledPPMFromFreq f := by
+  unfold unixutil_ScaledPPMFromFreq FreqDrift.scaledPPMFromFreq FreqDrift.scale
+  exact ofInt_toInt64 _
+
+theorem C18_leaf_FreqFromScaledPPM (x : Int64) :
+    unixutil_FreqFromScaledPPM x = FreqDrift.freqFromScaledPPM x.toInt := rfl
+
+theorem C18_leaf_Drift (c : S_SystemClock) (d : Int64) :
+    (clocks_SystemClock_Drift c d).toInt = FreqDrift.drift c.drift d.toInt := by
+  unfold clocks_SystemClock_Drift FreqDrift.drift
+  have hz : F64.ofInt 0 = FreqDrift.unknownDrift := by decide +kernel
+  rw [hz]
+  split
+  · decide
+  · exact C18_leaf_Duration _
+
+/-- the unknown-drift branch and the proportional branch both occur -/
+example : (clocks_SystemClock_Drift { drift := F64.ofInt 0, epoch := 0 } 1000000000).toInt = 9223372036854775807 ∧
+    (clocks_SystemClock_Drift { drift := F64.ofConst 1 1000, epoch := 0 } 2000000000).toInt = 2000000 := by
+  decide +kernel
 
 end ScionTime.LeafTieC18
